@@ -133,7 +133,12 @@ def run(ctx):
             st, m = q.check([inDx, inDy, x != y, z3.Extract(15, 0, x) == z3.Extract(15, 0, y)], "u16-truncation-injective")
             ctx.ob("%s/opcode-as-u16-injective" % key, st == "unsat" or (False if st == "sat" else None))
             if st == "sat":
-                ctx.violation("grammar/%s/u16-alias" % key, "two declared opcodes share their low 16 bits: %s %s" % (m[x], m[y]), None)
+                xv, yv = m.eval(x, model_completion=True).as_long(), m.eval(y, model_completion=True).as_long()
+                ra, rb = rp.ask("from_u32 Op %d" % xv), rp.ask("from_u32 Op %d" % yv)
+                if ra.get("some") and rb.get("some"):
+                    ctx.violation("grammar/%s/u16-alias" % key, "two declared opcodes share their low 16 bits: %d %d" % (xv, yv), {"cmd": "from_u32 Op %d" % xv, "real": [ra, rb]})
+                else:
+                    ctx.inconclusive.append(("%s/opcode-as-u16-injective" % key, "model-only: %s %s" % (ra, rb)))
         try:
             symbolic_lookups(ctx, q, rp, eng0, mf, ms, registry, key, hint, width, ename, entries, D, names_of)
         except mir.Unsupported as ex:
@@ -263,7 +268,13 @@ def symbolic_lookups(ctx, q, rp, eng0, mf, ms, registry, key, hint, width, ename
             st, m = q.check(r.pc + [op != z3.BitVecVal(entries[idx]["opcode"], 32)], "get/returns-op")
             ctx.ob("%s/get/returns-requested/%d" % (key, idx), st == "unsat" or (False if st == "sat" else None))
             if st == "sat":
-                ctx.violation("grammar/%s/get-wrong-entry/%s" % (key, entries[idx]["opname"]), "get returns a different opcode's entry", None)
+                wv = m.eval(op, model_completion=True).as_long()
+                real = rp.ask("get %s %d" % (key, wv))
+                if "panic" in real or ("opcode" in real and real.get("opcode") != wv):
+                    ctx.violation("grammar/%s/get-wrong-entry/%s" % (key, entries[idx]["opname"]), "get(%d) returns the entry of opcode %s" % (wv, real.get("opcode")),
+                                  {"cmd": "get %s %d" % (key, wv), "real": real})
+                else:
+                    ctx.inconclusive.append(("%s/get/returns-requested/%d" % (key, idx), "model-only: the compiled crate answers %s" % str(real)[:160]))
         else:
             ctx.ob("%s/get/path" % key, None, str(r))
 
